@@ -135,6 +135,7 @@ func (p *program) bind() {
 	}
 	p.addrs[3] = p.rootAdr
 	ctx := map[*frameNode]common.Address{p.root: p.rootAdr}
+	running := map[*frameNode][]byte{p.root: p.root.code}
 	var rec func(f *frameNode)
 	rec = func(f *frameNode) {
 		for _, n := range f.ops {
@@ -146,12 +147,16 @@ func (p *program) bind() {
 			case "call", "static":
 				a = childAddr(n.ID)
 				ctx[n.child] = a
+				running[n.child] = n.child.code
 			case "callcode", "delegate":
 				a = childAddr(n.ID)
 				ctx[n.child] = ctx[f]
+				running[n.child] = n.child.code
 			case "create":
-				a = createdAddr(ctx[f], uint64(n.CN), initCodeOf(f, n))
+				init := initCodeOf(running[f], n)
+				a = createdAddr(ctx[f], uint64(n.CN), init)
 				ctx[n.child] = a
+				running[n.child] = init
 			}
 			p.addrs[3+n.ID] = a
 			rec(n.child)
